@@ -61,6 +61,54 @@ def run_jobs(texts, wants, jobs, measure=False, timeout=600, hashseed=None):
     return [json.loads(ln) for ln in p.stdout.splitlines() if ln.startswith("{")]
 
 
+def memo_conformance(ctx, texts, wants, names, seqs, outs):
+    from common import GEN
+    with cf.ThreadPoolExecutor(max_workers=WORKERS) as ex:
+        ks = list(ex.map(lambda n: subprocess.run([PY, str(VERIF / "harness" / "purity_runner.py")],
+                                                  input=json.dumps({"repo": str(REPO), "texts": texts, "wants": wants, "jobs": [], "keys_for": [n]}),
+                                                  capture_output=True, text=True, env=child_env({"PYTHONHASHSEED": "0"}), timeout=300), names))
+    fns, keyidx, prog = set(), {}, {}
+    for n, p in zip(names, ks):
+        if p.returncode != 0:
+            raise MachineryError("key extraction failed: " + p.stderr[-500:])
+        d = [json.loads(ln) for ln in p.stdout.splitlines() if ln.startswith("{")][0]["keys"][n]
+        steps, seen = [], set()
+        for fn, key in d["calls"]:
+            fns.add(fn)
+            if (fn, key) in seen:
+                continue
+            seen.add((fn, key))
+            idx = keyidx.setdefault((fn, key), len(keyidx) + 1)
+            steps.append(f'<<"memo", "{fn}", <<{idx}>>>>')
+        steps.append('<<"acc", "d">>')
+        if d["failed"]:
+            steps.append('<<"fail">>')
+        prog[n] = steps
+    if not fns:
+        ctx.note("no memoised helper found in the working tree: memo-model conformance is vacuous")
+        return
+    lines = ["---------------------------- MODULE Impl_Process ----------------------------",
+             "\\* GENERATED by harness/props/c17.py from the working tree - do not edit",
+             "ImplTexts == {" + ", ".join(f'"{n}"' for n in names) + "}",
+             "ImplFns == {" + ", ".join(f'"{f}"' for f in sorted(fns)) + "}",
+             "ImplProg == [" + ",\n  ".join(f"{n} |-> <<" + ", ".join(prog[n]) + ">>" for n in names) + "]",
+             "============================================================================="]
+    GEN.mkdir(parents=True, exist_ok=True)
+    (GEN / "Impl_Process.tla").write_text("\n".join(lines) + "\n")
+    ctx.extra["memo_keys_extracted"] = {n: len(prog[n]) for n in names}
+    recs = []
+    for k, (s, o) in enumerate(zip(seqs, outs)):
+        if not s:
+            continue
+        recs.append({"id": f"m{k}", "props": ["C17"], "seq": s,
+                     "misses": [{f: int(p["cache"].get(f, [0, 0])[1]) for f in sorted(fns)} for p in o["parses"]]})
+    rej = ctx.validate(recs, module="TraceProcess", shards=min(8, WORKERS))
+    n = len({rid for rid, _, _ in rej})
+    ctx.extra["memo_model_histories_checked"] = len(recs)
+    ctx.extra["memo_model_mismatches"] = n
+    ctx.drift += n
+
+
 def run(ctx):
     r = rng("C17")
     texts, wants = corpus()
@@ -105,6 +153,7 @@ def run(ctx):
         seqs.append([r.choice(names) for _ in range(r.randrange(4, 9))])
     with cf.ThreadPoolExecutor(max_workers=WORKERS) as ex:
         outs = list(ex.map(lambda s: run_jobs(texts, wants, [{"kind": "history", "seq": s}])[0], seqs))
+    hist_outs = outs
     for k, (s, o) in enumerate(zip(seqs, outs)):
         add(f"h{k}", "history", o, {"history": s})
     ctx.sample({"origin": "history", "seq": seqs[len(seqs) // 3], "parses": outs[len(seqs) // 3]["parses"]})
@@ -170,6 +219,12 @@ def run(ctx):
     by_id = {x["id"]: x for x in recs}
     for rid, p, clause in ctx.validate(recs):
         ctx.violation(clause, {"kind": by_id[rid]["kind"], "detail": info[rid], "parses": by_id[rid]["parses"]}, key=clause + "|" + by_id[rid]["kind"])
+    # ---- A-level conformance of the memo-table model: recorded cache misses per parse vs. Process.tla driven through
+    # the same history with the per-text memo programs extracted from the working tree (drift only)
+    try:
+        memo_conformance(ctx, texts, wants, names, seqs, hist_outs)
+    except MachineryError as e:
+        ctx.note("memo-model conformance skipped: " + str(e)[:200])
     ctx.assumptions += [
         "thread interleavings are reproduced at function-entry granularity for the TLC-generated schedules (each model step = an equal share of the parse's switch points) and at line granularity for seeded schedules; bytecode-level interleavings are only sampled by the free-running stress",
         "observation = digest of the full projection + str(chart), or exception class and message digest",
